@@ -342,4 +342,28 @@ theorem profile_valid_after_save (name : α → String) (wanted A M X : List α)
   simpa [cm_effect_profile_COMMON, List.map_append, List.append_assoc, ht] using this
 end
 
+/-! non-vacuity of the three "after save" theorems: labelled elements that meet their hypotheses (tests, not theorems) -/
+
+/-- 1-9 `bind`, 20-29 and 60-69 `bind_vertex_input`, 40-49 `extra`, 70 `vertices`, 71-79 `source`, 80-89 `triangles`, 90 `technique`, 91-95 `image`, 96-99 `newparam` -/
+def exName (n : Nat) : String :=
+  if n < 10 then "bind" else if n < 30 then "bind_vertex_input" else if n < 50 then "extra" else if n < 70 then "bind_vertex_input"
+  else if n = 70 then "vertices" else if n < 80 then "source" else if n < 90 then "triangles" else if n = 90 then "technique"
+  else if n < 96 then "image" else "newparam"
+
+example : (syncChildren (fun c => exName c == "bind_vertex_input") [60, 61, 62] ([1] ++ [20, 21] ++ [40, 41]) [40, 41].head?).map exName
+    = ["bind", "bind_vertex_input", "bind_vertex_input", "bind_vertex_input", "extra", "extra"] := by decide
+
+example : cm_technique_common_instance_material.rmatch
+    ((syncChildren (fun c => exName c == "bind_vertex_input") [60] ([1] ++ [] ++ [40]) [40].head?).map exName) = true :=
+  instance_material_valid exName [60] [1] [] [40] (by decide) (by decide) (by decide) (by decide)
+
+example : cm_geometry_mesh.rmatch
+    ((syncChildren (fun c => !(["source", "vertices", "extra"].contains (exName c))) [81, 80]
+      (syncChildren (fun c => exName c == "source") [72, 71] ([71] ++ [70] ++ [80] ++ [40]) (some 70)) [40].head?).map exName) = true :=
+  mesh_valid_after_save exName [71] [72, 71] [80] [81, 80] [40] 70 (by decide) (by decide) (by decide) (by decide) (by decide) (by decide) (by decide)
+
+example : cm_effect_profile_COMMON.rmatch
+    ((syncChildren (fun c => exName c == "newparam") [97, 99] ([] ++ [91, 96, 92, 97] ++ [90] ++ [40]) (some 90)).map exName) = true :=
+  profile_valid_after_save exName [97, 99] [] [91, 96, 92, 97] [40] 90 (Or.inl rfl) (by decide) (by decide) (by decide) (by decide)
+
 end Pyc.Props.C04
